@@ -208,7 +208,7 @@ spec('TCPPacketGenerator', 'run', what='new segment only while next_seq + MSS <=
 def run(self, env):
     if self.flow.start_time:
         yield env.timeout(self.flow.start_time)
-    while env.now < self.flow.finish_time:
+    while self.flow.finish_time is None or env.now < self.flow.finish_time:
         if self.flow.size is not None and self.next_seq >= self.flow.size:
             return
         while self.next_seq >= self.send_buffer:
@@ -309,6 +309,7 @@ def __init__(self, env, timeout, timeout_callback, auto_restart=False, args=None
     self.expire_time = self.env.now + timeout
     self.auto_restart = auto_restart
     self.stopped = False
+    self.armed = True
     if args is None:
         self.args = []
     elif isinstance(args, (list, tuple)):
@@ -322,16 +323,20 @@ def __init__(self, env, timeout, timeout_callback, auto_restart=False, args=None
     self.proc = env.process(self.run(env))
 ''')
 
-spec('Timer', 'run', what='sleep exactly until expire_time; then callback(*args, **kwargs) iff not stopped; re-arm now + '
-                          'timeout iff auto_restart; an interrupt ends the process silently')('''
+spec('Timer', 'run', what='while an expiry is pending (a flag, not a clock comparison: a period below the resolution of '
+                          'the clock gives expiry == now and must still fire): sleep exactly until expire_time; then '
+                          'callback(*args, **kwargs) iff not stopped; re-arm now + timeout iff auto_restart; an interrupt '
+                          'ends the process silently')('''
 def run(self, env):
     try:
-        while env.now < self.expire_time:
+        while self.armed:
+            self.armed = False
             yield self.env.timeout(self.expire_time - env.now)
             if not self.stopped:
                 self.timeout_callback(*self.args, **self.kwargs)
                 if self.auto_restart:
                     self.expire_time = env.now + self.timeout
+                    self.armed = True
     except Interrupt as _:
         pass
 ''')
@@ -341,9 +346,10 @@ def wait(self):
     yield self.proc
 ''')
 
-spec('Timer', 'stop', what='stop always takes effect: flag set and expiry pulled to now')('''
+spec('Timer', 'stop', what='stop always takes effect: flag set, nothing pending any more, expiry pulled to now')('''
 def stop(self):
     self.stopped = True
+    self.armed = False
     self.expire_time = self.env.now
 ''')
 
@@ -353,6 +359,7 @@ def restart(self, timeout):
     self.start_time = self.env.now
     self.timeout = timeout
     self.expire_time = self.env.now + timeout
+    self.armed = True
     if self.proc is self.env.active_process:
         return
     if self.proc.is_alive:
